@@ -299,3 +299,52 @@ Proof.
       destruct a; reflexivity. }
   rewrite Hclose in Ht. exact Ht.
 Qed.
+
+(* ------------------------------------------------------------------ C09: reinsertion *)
+
+Lemma reclaim_copies_skip c b copies : forall q idx,
+  (forall x, In x copies -> snd x <> b) -> reclaim_copies c b copies q idx = (q, idx).
+Proof.
+  induction copies as [|[[v sq] b'] rest IH]; intros q idx H; cbn [reclaim_copies]; auto.
+  destruct (N.eqb_spec b' b) as [E|E]; [exfalso; apply (H (v, sq, b')); [left; auto|exact E]|].
+  apply IH. intros x Hx. apply H. right; auto.
+Qed.
+Lemma reclaim_copies_app c b l1 l2 : forall q idx,
+  reclaim_copies c b (l1 ++ l2) q idx =
+  reclaim_copies c b l2 (fst (reclaim_copies c b l1 q idx)) (snd (reclaim_copies c b l1 q idx)).
+Proof.
+  induction l1 as [|[[v sq] b'] rest IH]; intros q idx; cbn [app reclaim_copies fst snd]; auto.
+  destruct (b' =? b); [destruct (reins c)|]; apply IH.
+Qed.
+Lemma filter_not_block b (l : list (N * N * N)) :
+  (forall x, In x l -> snd x <> b) -> filter (fun x => negb (snd x =? b)) l = l.
+Proof.
+  induction l as [|x l IH]; cbn; auto. intros H.
+  destruct (N.eqb_spec (snd x) b) as [E|E]; [exfalso; apply (H x); auto|]. cbn. f_equal. apply IH. intros y Hy. apply H; auto.
+Qed.
+
+(* an entry the reinsertion filter selects survives the reclaim of its block: at quiescence, with its only copy in
+   block b, after the block is reclaimed and the flusher has drained, the entry is served again (now from block b') *)
+Theorem reinserted_entry_survives c s v sq b b' pre post :
+  bug_rr c = false -> reins c = true ->
+  kmem s = None -> kkeep s = None -> kq s = [] -> ki s = [] ->
+  kidx s = Some (IAddr sq v b) -> kdisk s = pre ++ (v, sq, b) :: post ->
+  (forall x, In x pre -> snd x <> b) -> (forall x, In x post -> snd x <> b) ->
+  lookup_now s = Some v /\ lookup_now (drain_all c b' (do_reclaim c s b)) = Some v.
+Proof.
+  intros Hrr Hre Hm Hk Hq Hi Hidx Hd Hpre Hpost. split.
+  - unfold lookup_now, disk_lookup, disk_lookup2. rewrite Hm, Hk, Hidx. cbn [idx_get].
+    rewrite (on_disk_in (kdisk s) v sq b); [reflexivity|]. rewrite Hd. apply in_or_app; right; left; auto.
+  - unfold do_reclaim. rewrite Hd, Hq.
+    rewrite reclaim_copies_app. rewrite (reclaim_copies_skip c b pre [] (kidx s) Hpre). cbn [fst snd reclaim_copies].
+    rewrite N.eqb_refl, Hre. rewrite (reclaim_copies_skip c b post _ (kidx s) Hpost).
+    cbn [app]. rewrite filter_app. cbn [filter snd]. rewrite N.eqb_refl. cbn [negb].
+    rewrite (filter_not_block b pre Hpre), (filter_not_block b post Hpost).
+    unfold drain_all. cbn [kq ki set_q set_idx set_disk length]. rewrite Hi. cbn [length Nat.add Nat.mul].
+    cbn [drain ki kq set_q set_idx set_disk]. rewrite Hi.
+    unfold do_flush. cbn [kq ki kidx kdisk set_q set_idx set_disk set_i]. rewrite Hrr, Hidx. cbn [idx_get idx_insert iseq].
+    rewrite N.leb_refl. rewrite Hi. cbn [app drain ki kq set_i set_idx set_disk set_q].
+    unfold do_complete. cbn [ki kq set_i set_idx set_disk set_q drain].
+    unfold lookup_now, disk_lookup, disk_lookup2. cbn [kmem kkeep kidx kdisk set_i set_idx set_disk set_q idx_get].
+    rewrite Hm, Hk. rewrite (on_disk_in _ v sq b'); [reflexivity|]. apply in_or_app; right; left; auto.
+Qed.
